@@ -949,6 +949,8 @@ def gen_request(rng, avail, streams, force=None):
     avail: the <stream>.<type> names that have solutions (in a fixed order)."""
     missing = [s_ + '.' + t for s_ in streams for t in DOC_TYPES if s_ + '.' + t not in avail]
     kind = force or rng.choice(['strict'] * 6 + ['group'] * 3 + ['types'] * 7 + ['mixed'] * 2 + ['strict_missing'])
+    if force is None and rng.random() < 0.04:
+        return rng.choice(['', []]), 'none'                 # no calibration asked for: the stored data
     if kind == 'strict_missing' and not missing:
         kind = 'types'
     if kind in ('strict', 'mixed') and not avail:
@@ -976,6 +978,8 @@ def gen_request(rng, avail, streams, force=None):
         req = rng.sample(DOC_TYPES, rng.randint(1, 3)) + rng.sample(avail, rng.randint(1, len(avail)))
         if rng.random() < 0.3:
             req.append(rng.choice(list(streams)))
+        if rng.random() < 0.2:
+            req.append('l1.X')                               # a qualified name of an unknown type: no solutions
         rng.shuffle(req)
     else:
         req = list(avail) + [rng.choice(missing)]
